@@ -47,6 +47,8 @@ impl<K: crate::ExpiredKey<E>, E: crate::Expiration, V: Copy> KeyExpTree<K, E, V>
     /// start an operation from any state. The caller answers for the validity of the snapshot.
     pub fn verif_load(s: VerifSnapshot<K, V>) -> Self {
         let mut tree = Self::new(0);
+        // slot 0 (the temporary sentinel) stays as `new` initialised it
+        let sentinel = tree.store.buffer[0].clone();
         tree.store.buffer = s
             .nodes
             .into_iter()
@@ -58,6 +60,9 @@ impl<K: crate::ExpiredKey<E>, E: crate::Expiration, V: Copy> KeyExpTree<K, E, V>
                 entity: crate::key::entity::Entity::new(n.key, n.val),
             })
             .collect();
+        if !tree.store.buffer.is_empty() {
+            tree.store.buffer[0] = sentinel;
+        }
         let mut unused = Vec::with_capacity(s.unused_capacity);
         unused.extend(s.unused);
         tree.store.unused = unused;
